@@ -11,6 +11,8 @@ from vlib import Infra
 
 
 def run(v, tier, seed, replay):
+    if replay:
+        return suvec.replay(v, replay, "asan")
     exe = suvec.build_driver("asan")
     ops = ("add", "icomm") if tier == "quick" else ("add", "neg", "icomm", "elementwise")
     cfg = suvec.bfs_cfg("C16_bfs", vecs=3, dims=(2, 3), exts=(1,), maxops=3 if tier == "quick" else 4, ops=ops, nblk=7, faults=True)
